@@ -1202,6 +1202,9 @@ def _walk(cfg, ps, dts, top=False):
 
 def site_of(cfg):
     k = cfg['kind']
+    if k == 'extreme':
+        return 'tensor[w=%s,%s,%s,extreme magnitudes,%s]' % (
+            cfg['w'], _pcls(cfg['p']), cfg['dtype'], _regime(cfg['n']))
     if k == 'tensor':
         n = int(np.prod(cfg['shape']))
         return 'tensor[w=%s,%s,%s,%s,%s]' % (_wcls(cfg['w']) + ('F' if cfg['w'] == 'arrF' else ''),
@@ -1696,6 +1699,74 @@ def _derived_configs(thorough):
     return out
 
 
+def _extreme_configs(thorough):
+    """Magnitudes at the edge of the floating-point range: entries whose SQUARES under- or overflow
+    although the entries, the norms and the distances are representable."""
+    out = []
+    for dt in ('float64', 'float32', 'complex128', 'complex64'):
+        for n in (1, 3, 99, 100, 101) + ((50001,) if thorough else ()):
+            # per-entry weights are left out: their documented formula (the weighted sum of
+            # squares, evaluated as such) over- and underflows itself at these magnitudes
+            for w in ('none', 'c2.0'):
+                for p in (2, 1, 'inf', 1.5):
+                    out.append({'kind': 'extreme', 'dtype': dt, 'n': n, 'w': w, 'p': p})
+    return out
+
+
+def run_extreme(cfg, site):
+    """Absolute homogeneity for scalars 2^k (exact scalings): norm(s x) = s norm(x),
+    dist(s x, s y) = s dist(x, y) - no reference formula needed."""
+    dt = np.dtype(cfg['dtype'])
+    n = cfg['n']
+    single = dt in (np.dtype('float32'), np.dtype('complex64'))
+    ks = (-70, 60) if single else (-520, 500)
+    kw = {}
+    if cfg['w'] == 'c2.0':
+        kw['weighting'] = 2.0
+    elif cfg['w'] == 'arr':
+        kw['weighting'] = np.resize(np.array([1.0, 2.0, 0.5], dtype=_real_dtype(dt)), n)
+    p = float('inf') if cfg['p'] == 'inf' else float(cfg['p'])
+    viol, evals, skipped = [], 0, 0
+    try:
+        sp = odl.tensor_space(n, dtype=dt, exponent=p, **kw)
+    except Exception as e:       # noqa
+        return {'evals': 1, 'sig': site + '|unbuildable',
+                'viol': [{'site': site, 'symptom': 'raises:' + type(e).__name__, 'detail': repr(e)}]}
+    base = np.resize(np.array([1.0, -2.0, 0.5, 3.0, -1.0]), n).astype(dt)
+    other = np.resize(np.array([0.5, 1.0, -1.0]), n).astype(dt)
+    if dt.kind == 'c':
+        base = base + 1j * np.resize(np.array([2.0, 0.0, -1.0]), n)
+    first = {}
+    try:
+        x1, y1 = sp.element(base), sp.element(other)
+        n1, d1 = float(x1.norm()), float(x1.dist(y1))
+    except Exception as e:       # noqa  (array-weighted integer-like corners are judged elsewhere)
+        return {'evals': 1, 'skipped': 1, 'sig': site + '|base-raises', 'viol': []}
+    tol = (1e-5 if single else 1e-12)
+    for k in ks:
+        sc = 2.0 ** k
+        xs, ys = sp.element(base * dt.type(sc)), sp.element(other * dt.type(sc))
+        for name, got, want in (('norm', lambda: float(xs.norm()), sc * n1),
+                                ('dist', lambda: float(xs.dist(ys)), sc * d1)):
+            try:
+                g = got()
+            except Exception as e:       # noqa
+                first.setdefault(name + '_raises:' + type(e).__name__, '2^%d: %r' % (k, e))
+                continue
+            evals += 1
+            lim = np.finfo(_real_dtype(dt))
+            if not (lim.tiny * 4 < want < lim.max / 4):
+                skipped += 1
+                continue
+            if not np.isfinite(g) or abs(g - want) > tol * want:
+                first.setdefault(name + '_not_absolutely_homogeneous',
+                                 '%s(2^%d x) = %r but 2^%d %s(x) = %r (entries of x are O(1), all '
+                                 'quantities representable in %s)' % (name, k, g, k, name, want, dt))
+    viol = [{'site': site, 'symptom': sy, 'detail': d} for sy, d in first.items()]
+    return {'evals': evals, 'viol': viol, 'skipped': skipped,
+            'sig': '%s|extreme|%s' % (site, ','.join(sorted(first)) or 'ok'), 'trivial': evals == 0}
+
+
 def configs(tier):
     thorough = tier == 'thorough'
     cfgs = []
@@ -1707,6 +1778,7 @@ def configs(tier):
     cfgs += _whist_configs(thorough)
     cfgs += _prod_configs(thorough)
     cfgs += [{'kind': 'empty', 'how': 'power0'}, {'kind': 'empty', 'how': 'field'}]
+    cfgs += _extreme_configs(thorough)
     # simplest first: by number of entries, then as generated
     seen, uniq = set(), []
     for c in cfgs:
@@ -1786,6 +1858,8 @@ class Empty(Node):
 
 def run(cfg):
     site = site_of(cfg)
+    if cfg['kind'] == 'extreme':
+        return run_extreme(cfg, site)
     ctx = Ctx(site)
     if cfg['kind'] == 'whist':
         try:
